@@ -183,8 +183,12 @@ fn judge_strands(c: &Case, imp: &str, model: &str) -> Verdict {
     // model: ok|kmers s|spec s|starts  (request is a plain `kmers` request)
     let f: Vec<&str> = model.split('|').collect();
     let i: Vec<&str> = imp.split('|').collect();
+    if f.len() >= 4 && f[0] == "ok" && imp.starts_with("panic") {
+        // k is in range (the model accepts): the iterator must yield its items, not fail
+        return Verdict::SpecViolation(format!("the k-mer iterator failed on the sequence or on its reverse complement: {}", trunc(imp, 300)), "KT.kmers_rcSeq");
+    }
     if f.len() < 4 || f[0] != "ok" || i.len() != 4 {
-        return Verdict::ModelDiff(format!("model {} impl {}", model, imp));
+        return Verdict::ModelDiff(format!("model {} impl {}", trunc(model, 300), trunc(imp, 300)));
     }
     let parse = |s: &str| -> Vec<(u64, u64)> {
         if s.is_empty() {
